@@ -3,6 +3,7 @@ package harness
 import (
 	"bytes"
 	"encoding/json"
+	"errors"
 	"fmt"
 	"hash/fnv"
 	"io"
@@ -25,13 +26,14 @@ type SeqCase struct {
 	World             WorldSpec `json:"world"`
 	Keys              []string  `json:"keys"`
 	Ops               []Op      `json:"ops"`
-	ReadBack          string    `json:"readback"`                 // all: every open actor reads every key + GetKeys after each data step; auto: autocommit only; none
-	Walk              string    `json:"walk,omitempty"`           // "": none; "shape": C17 layout walk after every step; "final": C14 exact-content walk at the end
-	Client            string    `json:"client,omitempty"`         // inline (default) | simgrpc
-	BadgerFailUpdates []uint64  `json:"badger_fail,omitempty"`    // indices (per world, 1-based) of Badger updates that fail before applying
-	FaultOps          []int     `json:"fault_ops,omitempty"`      // indices of ops whose Badger updates fail (resolved at run time)
-	MkdirFaultAt      []int     `json:"mkdir_fault_at,omitempty"` // at these op indices the next directory creation is armed to fail (ENOSPC); it fires inside whichever later write needs a new directory
-	FaultLate         bool      `json:"fault_late,omitempty"`     // those updates fail at their commit step, after their function has run, instead of before it
+	ReadBack          string    `json:"readback"`                  // all: every open actor reads every key + GetKeys after each data step; auto: autocommit only; none
+	Walk              string    `json:"walk,omitempty"`            // "": none; "shape": C17 layout walk after every step; "final": C14 exact-content walk at the end
+	Client            string    `json:"client,omitempty"`          // inline (default) | simgrpc
+	BadgerFailUpdates []uint64  `json:"badger_fail,omitempty"`     // indices (per world, 1-based) of Badger updates that fail before applying
+	FaultOps          []int     `json:"fault_ops,omitempty"`       // indices of ops whose Badger updates fail (resolved at run time)
+	ReadDirFullAt     []int     `json:"readdir_full_at,omitempty"` // at these op indices the next listing of a directory that is full (holds the configured maximum) is armed to fail (EIO); it fires inside the write that would rotate that directory out
+	MkdirFaultAt      []int     `json:"mkdir_fault_at,omitempty"`  // at these op indices the next directory creation is armed to fail (ENOSPC); it fires inside whichever later write needs a new directory
+	FaultLate         bool      `json:"fault_late,omitempty"`      // those updates fail at their commit step, after their function has run, instead of before it
 	// process-boundary segments: the world lives in Dir (kept between processes); operations before
 	// From only advance the model (earlier processes executed them), operations from To on are left
 	// to later processes
@@ -326,15 +328,49 @@ func (s *seqRun) step(i int, o Op) bool {
 				s.w.Disk.FailMkdirs++
 			}
 		}
-		mkdirErrs := s.w.Disk.Stats.MkdirErrs
+		for _, at := range s.c.ReadDirFullAt {
+			if at == i {
+				limit := int(s.w.Spec.MaxDirCount)
+				if limit < 100 {
+					limit = 100
+				}
+				s.w.Disk.FullCount = limit
+				s.w.Disk.FailReadDirsFull++
+			}
+		}
+		mkdirErrs, readDirErrs := s.w.Disk.Stats.MkdirErrs, s.w.Disk.Stats.ReadDirErrs
 		r := s.a.apply(s.w.Ctx, o)
 		an := actorName(s.m, o.tx())
 		mkdirFailed := s.w.Disk.Stats.MkdirErrs > mkdirErrs
+		readDirFailed := s.w.Disk.Stats.ReadDirErrs > readDirErrs
 		if o.Ctx == "dead" && r.Err != nil && (r.Class == "other" || r.Class == "ErrUnknown") && !s.faultAt(i) {
 			// the call was made with a context that was already cancelled and was refused (the
 			// external client fails fast): it must then have had no effect, which the read-backs
 			// after this step and the rest of the history check against the unchanged model
 			s.faults["dead-context-call-refused"]++
+		} else if o.K == "setr" && o.Shape == "failing" {
+			// the source reader failed part-way: the write fails (with the reader's error where the
+			// caller's own process runs the copy and nothing else was wrong with the call) and is not
+			// applied, whoever made it; the read-backs and the rest of the history check the rest
+			s.faults["source-reader-failed-in-write"]++
+			if o.ID != 0 {
+				s.idx.add(refmodel.Val{ID: o.ID, Size: o.Size})
+			}
+			if r.Err == nil {
+				s.fail("error-class", fmt.Sprintf("source-error-swallowed,op=%s,actor=%s", o.K, an), fmt.Sprintf("step %d (%s by %s): the source reader failed at offset %d of %d, the write returned nil", i, o, an, int((o.ID*7919)%uint64(o.Size+1)), o.Size))
+				return false
+			}
+			if s.c.Client != "simgrpc" && s.c.Client != "grpcreal" && o.Key != "" && an != "ended" && an != "unknown" && o.Ctx != "dead" && !s.faultAt(i) && !mkdirFailed && !s.tightDisk() && !errors.Is(r.Err, errSource) {
+				s.fail("error-class", fmt.Sprintf("wrong-class,op=%s,actor=%s", o.K, an), fmt.Sprintf("step %d (%s by %s): the source reader failed; the write returned %v, which does not wrap the reader's error", i, o, an, r.Err))
+				return false
+			}
+		} else if readDirFailed && (o.K == "set" || o.K == "setr" || o.K == "create") && r.Class == "other" {
+			// a directory could not be listed when this write chose its place: the write fails and is
+			// not applied; nothing may have been put anywhere (the walk checks the limits)
+			s.faults["readdir-of-a-full-directory-failed-in-write"]++
+			if o.ID != 0 {
+				s.idx.add(refmodel.Val{ID: o.ID, Size: o.Size})
+			}
 		} else if mkdirFailed && (o.K == "set" || o.K == "setr" || o.K == "create") && r.Class == "other" {
 			// the directory this write needed could not be created: the write fails and is not
 			// applied; the writes after it must work again
@@ -557,6 +593,9 @@ func (s *seqRun) modelOnly(o Op) {
 	case "set", "setr", "create":
 		v := refmodel.Val{ID: o.ID, Size: o.Size}
 		s.idx.add(v)
+		if o.K == "setr" && o.Shape == "failing" {
+			break // its source failed: never applied
+		}
 		s.m.Set(o.tx(), o.Key, v)
 	case "del":
 		s.m.Delete(o.tx(), o.Key)
